@@ -1,5 +1,6 @@
 import E3fpVerif.DriverFprint
 import E3fpVerif.DriverDb
+import E3fpVerif.DriverMetrics
 open Lean E3fpVerif
 
 structure St where
@@ -12,6 +13,7 @@ def dispatch (st : St) (j : Json) : St × Json :=
     else if op.startsWith "db." then
       let (s, r) ← dbOp st.dbs op j
       return ({ st with dbs := s }, r)
+    else if op.startsWith "met." then return (st, ← metricsOp op j)
     else .error s!"unknown op {op}" : Except String (St × Json)) with
   | .ok r => r
   | .error e => (st, Json.mkObj [("driver_error", e)])
